@@ -747,6 +747,11 @@ func TestVerifStore(t *testing.T) {
 			break
 		}
 		nprog++
+		// a use-after-free of an mmap'd buffer kills the process: leave a note
+		// for the runner saying which program was running
+		for id := range res {
+			vh.CheckpointKey(id, "crash/store", replay{"sched", p, nil})
+		}
 		var w *world
 		prog := instantiate(p, &w)
 		unbounded := vh.Thorough() && len(p.Threads) == 2
@@ -814,6 +819,9 @@ func TestVerifStore(t *testing.T) {
 				res[propOf(pk)].Violate(pk, pt+where, rp)
 			}
 		}
+	}
+	for id := range res {
+		vh.ClearCheckpoint(id)
 	}
 	vtime.ClearVirtual()
 	vrand.Unfix()
